@@ -558,6 +558,9 @@ class SymInt:
             raise Unsupported('true division by non-constant')
         return SymRatio(self.e, w)
 
+    def __rtruediv__(self, o):
+        raise Unsupported('true division by a symbolic int (float arithmetic is outside the modelled fragment)')
+
     def __pow__(self, o, mod=None):
         if type(o) is int and mod is None and 0 <= o <= 4:
             r = 1
